@@ -9,9 +9,9 @@ import FranzVerif.Gen.Schema
                                           unknown tags). Failing key `T:vN:<field path or bytes@field>`.
   dec T ver <hex> | ok <tree> r=1 u=1 a=1 | err u=1 a=1 | panic:… | hang
                                           C16.  model: `decTop`. Spec on the implementation's output: no panic, `a=1` (allocation
-                                          within the bound), `u=1` (UnsafeReadFrom agrees), `r=1` (re-encode + decode is stable).
-                                          When the model says the tag-count loop spins for more than 10^5 iterations the
-                                          comparison is skipped (`*`): `err` and `hang` are both accepted and not a verdict.
+                                          within the bound), `u=1` (UnsafeReadFrom agrees), `r=1` (re-encode + decode is stable),
+                                          and no call exceeds its deadline (`hang`; since /repo 994d56c the tag-count loop
+                                          stops on a failed reader, so every decode is linear in its input).
 
 Value trees: `i<int>` | `b<hex>` `b.` `b-` (nil) | `n` (nil slice / pointer) | `[ … ]` | `{ fields… ; key:hex … }`. -/
 open Driver Model.C15
@@ -194,21 +194,13 @@ def stepEnc (name ver : String) (tree : List String) (impl : String) : String :=
   | none, _, _ => "unknown-type | - | 0"
   | _, _, _ => "bad-op | - | 0"
 
-def spinLimit : Nat := 100000
-
 def stepDec (name ver hex : String) (impl : String) : String :=
   match findTop name, ver.toInt?, parseHex? hex with
   | some top, some ver, some src =>
     let r := decTop top ver src
     let nt := boolStr (src.length > 2)
     match r with
-    | .err spin =>
-      if spin > spinLimit then
-        -- the Go code is still looping over a tag count taken from the input (DESIGN §8-i): time, not a C16 outcome
-        let v := if impl == "hang" || impl.startsWith "err" then "-" else s!"0:{name}:v{ver}:spin-mismatch"
-        s!"* | {v} | {nt}"
-      else
-        s!"err u=1 a=1 | {specDec name ver impl} | {nt}"
+    | .err _ => s!"err u=1 a=1 | {specDec name ver impl} | {nt}"
     | .ok v _ => s!"ok {treeStr v} r=1 u=1 a=1 | {specDec name ver impl} | {nt}"
     | .panic m => s!"panic:{m} | {specDec name ver impl} | {nt}"
   | none, _, _ => "unknown-type | - | 0"
@@ -217,7 +209,7 @@ where
   /-- C16 as stated, evaluated on the implementation's own output. -/
   specDec (name : String) (ver : Int) (impl : String) : String :=
     if impl.startsWith "panic" then s!"0:{name}:v{ver}:panic"
-    else if impl == "hang" then s!"0:{name}:v{ver}:hang-unexplained"
+    else if impl == "hang" then s!"0:{name}:v{ver}:hang"
     else
       let ts := toks impl
       if ts.contains "a=0" then s!"0:{name}:v{ver}:alloc"
